@@ -559,6 +559,110 @@ func runC09(c *Ctx) {
 
 	c.rule("C09.V5", "each disconnect lets the rescan step back by exactly one block: handleBlockDisconnected takes the notification's ChainTip as its new position, so the event for a removed block must carry that block's own parent: "+disconnectPayloadDoc, func() { c.disconnectPayload() })
 
+	c.rule("C09.V6", "the set of watched inputs only grows while a rescan runs: every store to ro.watchInputs appends to the field's own current value (append(ro.watchInputs, ...)); a block can be walked more than once - after a reorganisation, after an Update that rewinds - and what it spends must be matched again: an entry dropped when its spend was first seen makes the second delivery of that block come without the transaction", func() {
+		wf := c.field("neutrino", "rescanOptions", "watchInputs")
+		var bad, sites []string
+		for _, fn := range c.P.Funcs {
+			for _, in := range find(fn, storeToField(wf)) {
+				sites = append(sites, c.at(in))
+				call, ok := ir.Strip(in.(*ssa.Store).Val).(*ssa.Call)
+				okShape := false
+				if ok && isBuiltin("append")(call) {
+					if u, isU := ir.Strip(call.Call.Args[0]).(*ssa.UnOp); isU && u.Op == token.MUL {
+						if fa, isFA := u.X.(*ssa.FieldAddr); isFA && ir.FieldOfAddr(fa) == wf {
+							okShape = true
+						}
+					}
+				}
+				if !okShape {
+					bad = append(bad, "ro.watchInputs is assigned at "+c.at(in)+" in "+c.nm(fn)+" something other than append(ro.watchInputs, ...)")
+				}
+			}
+		}
+		sort.Strings(bad)
+		sort.Strings(sites)
+		c.verdict(len(bad) == 0 && len(sites) >= 3, "neutrino.rescanOptions | watchInputs is only appended to", "", fmt.Sprintf("%d store(s), each append(ro.watchInputs, ...)", len(sites)), join(bad)+fmt.Sprintf(" (%d stores found, 3 tabled)", len(sites)), sites...)
+	})
+
+	c.rule("C09.O5", "what an update adds is watched: in updateFilter every input of the update ends up in ro.watchInputs (what spends are matched against) and its script in ro.watchList (what block filters are matched against) - the whole slice appended on every path, or a loop over update.inputs in which every pass reaches the append; an input left out because its outpoint 'is already watched' drops every script-only watch after the first (they all carry the zero outpoint), and spends of those scripts are never delivered", func() {
+		fn := c.fn("(*neutrino.rescanOptions).updateFilter")
+		inputsF := c.field("neutrino", "updateOptions", "inputs")
+		for _, spec := range []struct {
+			field string
+			what  string
+		}{{"watchInputs", "ro.watchInputs = append(ro.watchInputs, input)"}, {"watchList", "ro.watchList = append(ro.watchList, input.PkScript)"}} {
+			wf := c.field("neutrino", "rescanOptions", spec.field)
+			construct := c.nm(fn) + " | every input of the update reaches " + spec.field
+			isAppendTo := func(in ssa.Instruction) (*ssa.Call, bool) {
+				st, ok := in.(*ssa.Store)
+				if !ok || !storeToField(wf)(in) {
+					return nil, false
+				}
+				call, ok := ir.Strip(st.Val).(*ssa.Call)
+				if !ok || !isBuiltin("append")(call) || !loadsField(wf)(call.Call.Args[0]) {
+					return nil, false
+				}
+				return call, true
+			}
+			// (a) the whole slice, on every path
+			whole := false
+			var sites []ssa.Instruction
+			for _, in := range find(fn, storeToField(wf)) {
+				call, ok := isAppendTo(in)
+				if !ok {
+					continue
+				}
+				if loadsField(inputsF)(call.Call.Args[1]) && !ir.DerivesFrom(call.Call.Args[1], func(x ssa.Value) bool { _, isIA := x.(*ssa.IndexAddr); return isIA }) {
+					all := true
+					for _, r := range find(fn, isExit) {
+						if ir.IsNil(ir.RetVal(r.(*ssa.Return), 1)) && !in.Block().Dominates(r.Block()) {
+							all = false
+						}
+					}
+					if all {
+						whole = true
+						sites = append(sites, in)
+					}
+				}
+			}
+			if whole {
+				c.pass(construct, c.at(sites[0]), "update.inputs is appended as a whole before every successful return", c.ats(sites)...)
+				continue
+			}
+			// (b) a loop over update.inputs, every pass of which appends
+			n := 0
+			for _, in := range find(fn, storeToField(wf)) {
+				call, ok := isAppendTo(in)
+				if !ok {
+					continue
+				}
+				// the appended element comes from update.inputs[i]
+				if !ir.DerivesFrom(call.Call.Args[1], func(x ssa.Value) bool {
+					ia, isIA := x.(*ssa.IndexAddr)
+					return isIA && loadsField(inputsF)(ia.X)
+				}) {
+					continue
+				}
+				h := ir.LoopHeaderOf(in.Block())
+				if h == nil {
+					continue
+				}
+				n++
+				blocks := ir.LoopBlocks(h)
+				var starts []start
+				for i, sc := range h.Succs {
+					if blocks[sc] {
+						starts = append(starts, atEdge(c, ir.Edge{From: h, Succ: i}, "next input of the update"))
+					}
+				}
+				in := in
+				c.mustFollowIter(fn, "each input of the update ("+spec.field+")", starts, func(x ssa.Instruction) bool { return x == in }, spec.what, nil, 1)
+			}
+			if n == 0 {
+				c.fail(construct, c.P.Pos(fn.Pos()), "update.inputs is neither appended to "+spec.field+" as a whole nor element by element in a loop over it")
+			}
+		}
+	})
 	c.rule("C09.O4", "an update that Update() has handed over takes effect: while a rescan waits to catch up, waitForBlocks takes updates off the update channel itself; from the arm that received one, every path reaches the loop that applies the queued updates (updateFilter) before the next wait - an update that is only queued when the wait ends on the following notification is dropped although Update returned nil, and what it added is never matched", func() {
 		fn := c.fn("(*neutrino.rescanState).waitForBlocks")
 		upd := c.method("neutrino", "rescanOptions", "updateFilter")
